@@ -42,7 +42,7 @@ ASSUMPTIONS = [
     'sequences are complete to the stated depth only; flows / T / P come from small alphabets',
     'pickled objects are compared through public observables (flows, phases, T, P, ID, price, characterization factors, stoichiometry, X, reactant, basis, chemical constants and a few property evaluations), not bit-for-bit',
 ]
-TOLERANCES = {'flows': 0.0, 'T_P': 0.0, 'pickled_property_values_rel': 1e-12}
+TOLERANCES = {'flows': 0.0, 'T_P': 0.0, 'pickled_property_values_rel': 1e-12, 'mass_view_rel': 1e-12, 'volume_view_rel': 1e-10}
 
 _W, _E = 'Water', 'Ethanol'
 
@@ -97,6 +97,33 @@ def observe(x):
     if type(x) is tmo.Stream:
         return ('S', (x.phase,), {x.phase: row(x.mol.to_array())}, float(x.T), float(x.P))
     raise Violation('class', f'object is a {type(x).__name__}')
+
+def _molar_volume(chem, phase, T, P):
+    """m3/kmol... as the volumetric view defines it: 1000 * V(phase, T, P) evaluated afresh from the chemical"""
+    return 1000.0 * float(chem.V(phase, T, P))
+
+def _check_views(x, obs, op, a, role, match0, names, k):
+    """mass view == mol * MW, volume view == mol * 1000 V_i(phase, T, P) for the stream's CURRENT data, phase, T, P"""
+    kind, phases, rows, T, P = obs
+    chems = x.chemicals
+    MW = np.asarray(chems.MW, float)
+    try:
+        mol = np.atleast_2d(np.asarray(x.imol.data.to_array(), float))
+        mass = np.atleast_2d(np.asarray(x.imass.data.to_array(), float))
+        vol = np.atleast_2d(np.asarray(x.ivol.data.to_array(), float))
+    except Exception as e:
+        raise Violation('unexpected-exception', f'after {a!r} (streams {names}): reading imass/ivol of stream {k} raised {type(e).__name__}: {e}',
+                        match=dict(op=op, exc=type(e).__name__, role=role, stage='read-views', **match0))
+    if mass.shape != mol.shape or not np.allclose(mass, mol * MW, rtol=1e-12, atol=0.0):
+        raise Violation('view-stale', f'after {a!r} (streams {names}): stream {k} ({role}) imass reads {mass.tolist()} but imol * MW is {(mol * MW).tolist()}',
+                        match=dict(op=op, view='mass', role=role, **match0))
+    want = np.zeros_like(mol)
+    for r, p in enumerate(phases):
+        for c, chem in enumerate(chems):
+            if mol[r, c]: want[r, c] = mol[r, c] * _molar_volume(chem, p, T, P)
+    if vol.shape != mol.shape or not np.allclose(vol, want, rtol=1e-10, atol=0.0):
+        raise Violation('view-stale', f'after {a!r} (streams {names}): stream {k} ({role}) ivol reads {vol.tolist()} but mol * V(phase, T, P) is {want.tolist()}',
+                        match=dict(op=op, view='vol', role=role, **match0))
 
 def okey(o):
     return (o[0], o[1], tuple((p, tuple(sorted(o[2][p].items()))) for p in o[1]), o[3], o[4])
@@ -167,7 +194,7 @@ class C13(System):
     merge_across_configs = True
 
     def __init__(self, name, templates, depth_q, depth_t, ops=('copy', 'proxy', 'flow_proxy', 'copy_like', 'link', 'unlink', 'mutate'),
-                 pairs='ordered', pickle_depth=1, link_flags=None, tcap_q=None, tcap_t=None, copy_like_pairs=None):
+                 pairs='ordered', pickle_depth=1, link_flags=None, tcap_q=None, tcap_t=None, copy_like_pairs=None, views=False):
         self.name = name
         self.templates = tuple(templates)
         self._dq, self._dt = depth_q, depth_t
@@ -177,6 +204,9 @@ class C13(System):
         self.link_flags = link_flags or list(itertools.product((True, False), repeat=3))
         self._tq, self._tt = tcap_q, tcap_t
         self.copy_like_pairs = copy_like_pairs
+        #: observe the mass and volume views of every stream after every transition (they are memoised wrappers around the molar
+        #: data, T/P and phase containers, so "shares flows" must hold through them too) and write through the mass view
+        self.views = views
 
     def warm(self):
         fx.tmo(); _thermo('A'); _thermo('B')
@@ -209,6 +239,9 @@ class C13(System):
         st.m = Model()
         st.m.add_template(0, config[0]); st.m.add_template(1, config[1])
         st.last = None; st.nontriv = False; st.nsteps = 0
+        if self.views:
+            # reading the views creates memo entries: do it here so that it is part of every rebuilt state
+            for x in st.X[:2]: x.imass.data.to_array(); x.ivol.data.to_array()
         return st
 
     def canon(self, st):
@@ -254,6 +287,10 @@ class C13(System):
                     for p in v[1][:2]:
                         cur = v[2][p].get(_CAS[_E], 0.0)
                         acts.append(('flow', i, p, _E, 7.0 if cur != 7.0 else 0.0))
+                if self.views:
+                    p0 = None if s['kind'] == 'S' else v[1][-1]
+                    cur = v[2][v[1][0] if p0 is None else p0].get(_CAS[_W], 0.0)
+                    acts.append(('mflow', i, p0, _W, 5.0 if abs(cur - 5.0) > 1e-9 else 0.0))
                 acts.append(('T', i, 333.0 if v[3] != 333.0 else 366.0))
                 acts.append(('P', i, 5e5 if v[4] != 5e5 else 6e5))
         if 'pickle' in self.ops and st.nsteps <= self.pickle_depth:
@@ -271,11 +308,13 @@ class C13(System):
                 raise Violation('unexpected-exception', f'after {a!r}: reading stream {k} raised {type(e).__name__}: {e}',
                                 match=dict(op=op, exc=type(e).__name__, role=roles.get(k, 'bystander'), stage='read', **match0))
             exp = m.view(k)
-            if okey(obs) == okey(exp): continue
+            if okey(obs) == okey(exp):
+                if self.views: _check_views(X[k], obs, op, a, roles.get(k, 'bystander'), match0, st.names, k)
+                continue
             what = ('class' if obs[0] != exp[0] else 'phases' if obs[1] != exp[1] else 'T' if obs[3] != exp[3] else
                     'P' if obs[4] != exp[4] else 'flows')
             role = roles.get(k, 'bystander')
-            if role == 'bystander' or op in ('flow', 'T', 'P', 'phase'):
+            if role == 'bystander' or op in ('flow', 'mflow', 'T', 'P', 'phase'):
                 was = before_views.get(k)
                 real_changed = was is not None and okey(obs) != okey(was)
                 model_changed = was is not None and okey(exp) != okey(was)
@@ -349,7 +388,9 @@ class C13(System):
         if op == 'link':
             _, i, j, f, p, t = a
             si, sj = m.slots[i], m.slots[j]
-            match0 = dict(kind=klass(m, i), flags=f'{int(f)}{int(p)}{int(t)}')
+            # relink: the target already shared flows and T/P (hence its view memo) with some other stream before this call
+            relink = any(m.shares(i, k)['flow'] and m.shares(i, k)['TP'] for k in m.live() if k != i and k != j)
+            match0 = dict(kind=klass(m, i), flags=f'{int(f)}{int(p)}{int(t)}', relink=relink)
             if si['kind'] != sj['kind']:
                 try:
                     X[i].link_with(X[j], f, p, t)
@@ -385,6 +426,30 @@ class C13(System):
             m.idx[I] = dict(F=F, Ph=Ph, phases=ii['phases'])
             m.tps[TP] = list(m.tps[si['TP']])
             si['I'] = I; si['TP'] = TP
+            self._compare(st, op, a, {i: 'target'}, match0, before)
+            st.nontriv = shared
+            st.nsteps += 1
+            return (op, match0['kind'], shared)
+
+        if op == 'mflow':
+            # write v kmol/hr of water THROUGH THE MASS VIEW (v * MW kg/hr); every stream that shares the flows must read it in mol
+            _, i, p, ID, v = a
+            si = m.slots[i]; ii = m.idx[si['I']]
+            match0 = dict(kind=klass(m, i))
+            shared = m.shared_any(i)
+            x = X[i]
+            MWi = float(x.chemicals[ID].MW)
+            key = ID if p is None else (p, ID)
+            guarded(lambda: x.imass.__setitem__(key, v * MWi), match0)
+            try: got = float(x.imol[key])
+            except Exception as e:
+                raise Violation('unexpected-exception', f'{a!r}: reading imol raised {type(e).__name__}: {e}', match=dict(op=op, exc=type(e).__name__, stage='read', **match0))
+            if abs(got - v) > 1e-12 * max(1.0, abs(v)):
+                raise Violation('view-write-lost', f'{a!r} (streams {st.names}): wrote {v} kmol/hr ({v * MWi} kg/hr) through imass, imol reads {got}',
+                                match=dict(op=op, view='mass', **match0))
+            row = m.flows[ii['F']]['*' if p is None else p]
+            if got: row[_CAS[ID]] = got
+            else: row.pop(_CAS[ID], None)
             self._compare(st, op, a, {i: 'target'}, match0, before)
             st.nontriv = shared
             st.nsteps += 1
@@ -528,6 +593,13 @@ class PickleGrid(System):
                         for how in ('ctor', 'attr'):
                             if how == 'attr' and cf is None and not price: continue
                             cfgs.append(('stream', t, price, cf, ID, how))
+        # the session's default package differs between dump and load (settings.set_thermo is process-global; restored afterwards)
+        for t in ('Sl_A', 'Sg_A', 'Mgl_A', 'M1l_A', 'Sl_B', 'Mgl_B'):
+            own = TEMPLATES[t][1]
+            for other in ('A', 'B', 'VLE'):
+                if other == own: continue
+                for mode in ('own>other', 'other>own', 'own>none'):
+                    cfgs.append(('stream_default', t, other, mode))
         for basis in ('mol', 'wt'):
             for X in (0.0, 0.3, 1.0):
                 for rx in ('H2 + 0.5 O2 -> H2O', 'Glucose -> 2 Ethanol + 2 CO2', 'CH4 + 2 O2 -> CO2 + 2 H2O'):
@@ -563,6 +635,9 @@ class PickleGrid(System):
                 if cfd:
                     for a, v in cfd.items(): x.characterization_factors[a] = v
             st.X = [x, (price, cfd or {}, '' if ID is None else ID.lstrip('.'))]
+        elif kind == 'stream_default':
+            x = build_template(config[1]); x.price = 0.25
+            st.X = [x]
         elif kind == 'reaction':
             _, rx, X, basis, phases = config
             ch = fx.thermo('RXN').chemicals
@@ -595,6 +670,32 @@ class PickleGrid(System):
         x = st.X[0]
         st.last = a; st.nsteps += 1
         match0 = dict(kind=kind)
+        if kind == 'stream_default':
+            _, t, other, mode = st.names
+            match0 = dict(kind='M' if TEMPLATES[t][0] == 'M' else 'S', default=mode)
+            settings = tmo.settings
+            had = hasattr(settings, '_thermo'); saved = getattr(settings, '_thermo', None)
+            own_th, other_th = x.thermo, fx.thermo(other)
+            def setdef(th):
+                if th is None:
+                    if hasattr(settings, '_thermo'): object.__delattr__(settings, '_thermo')
+                else: settings.set_thermo(th)
+            first, second = {'own>other': (own_th, other_th), 'other>own': (other_th, own_th), 'own>none': (own_th, None)}[mode]
+            try:
+                setdef(first)
+                blob = pickle.dumps(x)
+                setdef(second)
+                try:
+                    y = pickle.loads(blob)
+                except Exception as e:
+                    raise Violation('unexpected-exception', f'{st.names!r}: unpickling after the default package changed raised {type(e).__name__}: {e}',
+                                    match=dict(op='pickle', exc=type(e).__name__, **match0))
+            finally:
+                if had: settings._thermo = saved
+                elif hasattr(settings, '_thermo'): object.__delattr__(settings, '_thermo')
+            _check_stream_pickle(x, y, match0)
+            st.nontriv = True
+            return ('stream_default', match0['kind'], mode)
         try:
             y = pickle.loads(pickle.dumps(x))
         except Exception as e:
@@ -711,9 +812,9 @@ SYSTEMS = [
     # kind x kind x package matrix of copy / copy_like (target = stream 0, source = stream 1), followed by mutations (independence)
     C13('c13.copylike', _ALL, 2, 3, ops=('copy', 'copy_like', 'mutate'), copy_like_pairs={(0, 1), (1, 0), (2, 0), (2, 1), (0, 2), (1, 2)}, tcap_t=400),
     # links / proxies / unlink / mutation / pickle, all ordered pairs of five templates
-    C13('c13.share', _CORE, 2, 3, ops=_ALLOPS, pickle_depth=1, tcap_t=500),
+    C13('c13.share', _CORE, 2, 3, ops=_ALLOPS, pickle_depth=1, tcap_t=500, views=True),
     # longer histories on a small universe
     C13('c13.share.deep', ('Sl_A', 'Sg_A', 'Mgl_A'), 3, 4, ops=_ALLOPS, pickle_depth=0,
-        link_flags=[(True, True, True), (True, False, False), (False, True, False), (False, False, True), (True, False, True)], tcap_t=500),
+        link_flags=[(True, True, True), (True, False, False), (False, True, False), (False, False, True), (True, False, True)], tcap_t=500, views=True),
     PickleGrid(),
 ]
